@@ -90,11 +90,11 @@ type ezCase struct {
 	Watch  bool                `json:"watch"`
 	CmdLn  bool                `json:"cmdline"` // use the process-wide flag.CommandLine with an application-registered flag
 	FOpt   struct {
-		Alias bool   `json:"alias"` // the file writes leaf b under its alias name
-		Enc   string `json:"enc"`   // "kebab": Params.FileFieldNameEncoder = kebab-case (dials tags are lower_snake)
-		EmptySet bool `json:"emptyset"` // every version of the file assigns [] to the set-typed leaf Tags
+		Alias    bool   `json:"alias"`    // the file writes leaf b under its alias name
+		Enc      string `json:"enc"`      // "kebab": Params.FileFieldNameEncoder = kebab-case (dials tags are lower_snake)
+		EmptySet bool   `json:"emptyset"` // every version of the file assigns [] to the set-typed leaf Tags
 	} `json:"fopt"`
-	Ran    struct {
+	Ran struct {
 		Done    bool             `json:"done"`
 		Err     string           `json:"err"`
 		Verify  []map[string]int `json:"verify"`
